@@ -588,6 +588,10 @@ class AtLeastKInARow(_KInARow):
                 implications.append(If(And([Not(sublist[0]), sublist[1]]), And(sublist[2:])))
             # Ending corner case
             implications.append(If(Not(sublists[-1][1]), Not(Or(sublists[-1][2:]))))
+            # A run also cannot start later within the last k-1 trials when the trial before them has the level
+            if len(sublists) > 1:
+                for j in range(len(var_list) - self.k + 2, len(var_list)):
+                    implications.append(If(var_list[j], var_list[j-1]))
 
         (cnf, new_fresh) = block.cnf_fn(And(implications), backend_request.fresh)
 
